@@ -1448,8 +1448,13 @@ fn mentioned_names(expr: &DataExpr, out: &mut Vec<String>) {
         DataExpr::PropertyOp(x) => {
             mentioned_names(&x.operand, out);
 
-            // a property name is a field of the operand, an index is an expression of its own
-            if !matches!(x.property.as_ref(), DataExpr::Identifier(_)) {
+            // a property name is a field of the operand; what follows a list is an index, an
+            // expression of its own (a plain name after a list is known to be one once the
+            // operand has been analyzed)
+            let is_field_name = matches!(x.property.as_ref(), DataExpr::Identifier(_))
+                && !matches!(x.operand.target_type(), Some(Type::List(_)));
+
+            if !is_field_name {
                 mentioned_names(&x.property, out);
             }
         }
@@ -1579,12 +1584,18 @@ impl Analyzable for TxDef {
             + self.outputs.len();
 
         // a definition that refers to itself can't be resolved, and every pass spent trying
-        // multiplies the size of what the previous one embedded
-        let circular = self.circular_definitions();
-        let passes = if circular.is_empty() { links.max(9) } else { 1 };
+        // multiplies the size of what the previous one embedded; the passes themselves tell
+        // what the names stand for, which is what tells an index from a property name
+        let mut circular = vec![];
 
-        for _ in 0..passes {
+        for _ in 0..links.max(9) {
             scope = self.best_effort_analyze_circular_dependencies(scope);
+
+            circular = self.circular_definitions();
+
+            if !circular.is_empty() {
+                break;
+            }
         }
 
         let circular = circular
